@@ -25,7 +25,7 @@ from fractions import Fraction
 
 from hypothesis import strategies as st
 
-from vlib.runner import Outcome
+from vlib.runner import Outcome, digest
 
 ID = "C10"
 RULE = ("Hypothesis op lists for WeightedTally / EventBasedWeightedTally (without, with subscriber; through register or "
@@ -526,7 +526,46 @@ def run_case(case):
         _run_timed(ctx)
     else:
         _run_weighted(ctx)
+    if not out.disc and not str(case.get("cls", "")).endswith("bigint"):
+        _second_use(out, stat, cls, timed, case)
     return out
+
+
+def _same(a, b):
+    return (a == b and type(a) is type(b)) or (isinstance(a, float) and isinstance(b, float) and a != a and b != b)
+
+
+def _second_use(out, stat, cls, timed, case):
+    """The statistic of this case is used for two more observation periods of equal length (initialize() in between),
+    and after each period ONE query is made - the way a model asks for one result per replication.  The answer must
+    be the one a fresh statistic gives for the same observations (same arithmetic, so identical)."""
+    h = digest(case)
+    name, meth, args = GETTERS[h[2] % len(GETTERS)]
+    k = 2 + h[3] % 5
+    seed = int.from_bytes(h[4:8], "big")
+    for period in (0, 1):
+        fresh = cls("fresh")
+        try:
+            stat.initialize()
+            t = 0.0
+            for i in range(k):
+                a = float(_mix(seed, 4 * i + period) % 7) / 2.0            # weights / time steps 0 .. 3
+                x = float(_mix(seed, 4 * i + 2 + period) % 1000) / 8.0 - 50.0
+                t += a
+                for st_ in (stat, fresh):
+                    st_.register(t if timed else a, x)
+            if timed:
+                for st_ in (stat, fresh):
+                    st_.end_observations(t + 1.5)
+            got, want = getattr(stat, meth)(*args), getattr(fresh, meth)(*args)
+        except Exception as e:                                    # noqa: BLE001
+            out.fail("second-use-raises:" + type(e).__name__, {"period": period, "getter": name, "error": repr(e)})
+            return
+        if not _same(got, want):
+            out.fail("second-use-differs:" + name, {"period": period, "observations": k, "got": _enc(got),
+                                                    "fresh_statistic": _enc(want)})
+            return
+    out.label("second-use-single-query:" + name)
 
 
 def _register(ctx, a, x, model, what="register"):
